@@ -29,6 +29,7 @@ func c35() {
 	initRepo()
 	run := ev.Start("C35")
 	c35Ranks(run)
+	c35SeedHistories(run)
 	c35Notarized(run)
 	run.Rule = "ranks: all miner sets (size 1..N of N+1 keys) x all insertion orders x {plain, re-add member, clone} x seed alphabet, distinct = distinct (set, seed, rank vector); notarized: BFS closure of reachable notarized lists of a real Round under Add/Update of every block object and the read accessors, distinct = distinct reachable list"
 	run.Assumptions = []string{
@@ -146,6 +147,77 @@ func c35Ranks(run *ev.Run) {
 				}
 			})
 		})
+	}
+}
+
+// c35SeedHistories: a node that reaches round seed s through ANY history of seed operations
+// (first seed, re-seed from a notarized block of another timeout, restart and seed again) must hold
+// the same ranking as a node that seeds a fresh round with s.
+func c35SeedHistories(run *ev.Run) {
+	seeds := []int64{1, 2, -5}
+	type sop struct {
+		Kind string
+		S    int64
+	}
+	var alpha []sop
+	for _, s := range seeds {
+		alpha = append(alpha, sop{"SetRandomSeed", s}, sop{"SetRandomSeedForNotarizedBlock", s})
+	}
+	alpha = append(alpha, sop{"Restart", 0})
+	depth := run.Pick(3, 4)
+	for n := 1; n <= 5; n++ {
+		pool := node.NewPool(node.NodeTypeMiner)
+		for k := 0; k < n; k++ {
+			if err := pool.AddNode(mkNode(node.NodeTypeMiner, k, true)); err != nil {
+				ev.Fatal("AddNode: %v", err)
+			}
+		}
+		ranksOf := func(r *round.Round) []int {
+			var out []int
+			for k := 0; k < n; k++ {
+				out = append(out, r.GetMinerRank(pool.GetNode(nodeID(k))))
+			}
+			return out
+		}
+		fresh := map[int64][]int{}
+		for _, s := range seeds {
+			r := round.NewRound(7)
+			r.SetRandomSeed(s, n)
+			fresh[s] = ranksOf(r)
+		}
+		var rec func(prefix []sop)
+		rec = func(prefix []sop) {
+			if len(prefix) > 0 {
+				r := round.NewRound(7)
+				for _, o := range prefix {
+					switch o.Kind {
+					case "SetRandomSeed":
+						r.SetRandomSeed(o.S, n)
+					case "SetRandomSeedForNotarizedBlock":
+						r.SetRandomSeedForNotarizedBlock(o.S, n)
+					case "Restart":
+						_ = r.Restart()
+					}
+				}
+				run.Add(0, 1, 1)
+				if s := r.GetRandomSeed(); s != 0 {
+					got := ranksOf(r)
+					run.Outcome(fmt.Sprintf("seed-history:%d:%d:%v", n, s, got))
+					if fmt.Sprint(got) != fmt.Sprint(fresh[s]) {
+						run.Violation("C35:ranking-differs-from-a-fresh-round-with-the-same-seed:"+prefix[len(prefix)-1].Kind,
+							fmt.Sprintf("%d miners, history %v: round seed is %d, ranks %v; a fresh round seeded with %d has ranks %v", n, prefix, s, got, s, fresh[s]),
+							map[string]any{"miners": n, "history": fmt.Sprint(prefix)})
+					}
+				}
+			}
+			if len(prefix) == depth {
+				return
+			}
+			for _, o := range alpha {
+				rec(append(append([]sop{}, prefix...), o))
+			}
+		}
+		rec(nil)
 	}
 }
 
